@@ -107,7 +107,9 @@ func build(sw *sim.World) {
 	case spec.PlanCN470:
 		w.maxIdx = 96
 	default:
-		w.maxIdx = 16
+		// dynamic plans: device channels up to two blocks beyond the 16 the
+		// region defines (a network that once had more channels)
+		w.maxIdx = 40
 	}
 	r := sim.NewRand(simrt.Raw())
 	w.sess = pipe.NewSession(r, r.Intn(2) == 0)
@@ -159,7 +161,7 @@ func (w *world) bandOp(r *sim.Rand) {
 	simrt.Count(cBandOps)
 	n := len(w.m.Chans)
 	switch k := r.Intn(10); {
-	case k < 3 && w.m.SupportsExtra && n < w.maxIdx-1 && len(w.m.CustomIdx()) < 12:
+	case k < 3 && w.m.SupportsExtra && n < 30 && len(w.m.CustomIdx()) < 20:
 		f := uint32(860000000 + 100000*r.Intn(200))
 		minDR, maxDR := w.m.CFMinDR, w.m.CFMaxDR
 		if r.Intn(4) == 0 {
@@ -383,12 +385,19 @@ func netServer(w *world, nSteps int, sub uint64) {
 		if w.m.Kind == spec.PlanDynamic && r.Intn(4) == 0 {
 			simrt.Count(cSweeps)
 			base := r.Intn(1<<16 - 1024)
+			extra := -1
+			if r.Intn(3) == 0 {
+				extra = 16 + r.Intn(24) // plus one stale channel beyond the first block
+			}
 			for mask := base; mask < base+1024; mask++ {
 				var d []int
 				for i := 0; i < 16; i++ {
 					if mask&(1<<uint(i)) != 0 {
 						d = append(d, i)
 					}
+				}
+				if extra >= 0 {
+					d = append(d, extra)
 				}
 				w.judge(d, "mask window")
 			}
